@@ -20,6 +20,8 @@ Inductive key := KInt (z : Z) | KStr (s : str).
 
 Inductive val :=
 | VInt (z : Z)
+| VBool (b : bool)                          (* True / False: an int subclass, == 1 / 0 *)
+| VFloat (h : Z)                            (* the float h/2 (0.0, 0.5, 1.0, ...); == the int h/2 when h is even *)
 | VStr (s : str)
 | VBytes (b : str)
 | VNone
@@ -71,10 +73,29 @@ Fixpoint getattr {A} (a : nat) (l : list (nat * A)) : option A :=
 Definition has_key {A} (k : key) (l : list (key * A)) : bool :=
   match lookup k l with Some _ => true | None => false end.
 
+(* numbers (int, bool, float) compare by value across the three types: twice the value *)
+Definition num2 (v : val) : option Z :=
+  match v with
+  | VInt z => Some (2 * z)%Z
+  | VBool b => Some (if b then 2 else 0)%Z
+  | VFloat h => Some h
+  | _ => None
+  end.
+(* the dict key a hashable value denotes: 1, True and 1.0 are the same key *)
+Definition key_of (v : val) : option key :=
+  match v with
+  | VInt z => Some (KInt z)
+  | VBool b => Some (KInt (if b then 1 else 0))
+  | VFloat h => if Z.even h then Some (KInt (Z.div2 h)) else None
+  | VStr s => Some (KStr s)
+  | _ => None
+  end.
+
 (* == *)
 Fixpoint veq (a b : val) : bool :=
   match a, b with
-  | VInt x, VInt y => Z.eqb x y
+  | (VInt _ | VBool _ | VFloat _), (VInt _ | VBool _ | VFloat _) =>
+      match num2 a, num2 b with Some x, Some y => Z.eqb x y | _, _ => false end
   | VStr x, VStr y => str_eqb x y
   | VBytes x, VBytes y => str_eqb x y
   | VNone, VNone => true
@@ -113,10 +134,9 @@ Fixpoint str_ltb (a b : str) : bool :=
   end.
 Definition vlt (a b : val) : bool :=
   match a, b with
-  | VInt x, VInt y => Z.ltb x y
   | VStr x, VStr y => str_ltb x y
   | VBytes x, VBytes y => str_ltb x y
-  | _, _ => false
+  | _, _ => match num2 a, num2 b with Some x, Some y => Z.ltb x y | _, _ => false end
   end.
 
 Fixpoint prefixb (p s : str) : bool :=
@@ -136,14 +156,11 @@ Definition vcontains (needle matchee : val) : bool :=
   | VBytes s => match needle with
                 | VBytes n => substrb n s
                 | VInt z => existsb (fun c => Z.eqb (Z.of_N c) z) s
-                | _ => false
+                | VBool b => existsb (fun c => Z.eqb (Z.of_N c) (if b then 1 else 0)) s   (* bool has __index__ *)
+                | _ => false                                                               (* float: TypeError *)
                 end
   | VList l => existsb (fun x => veq x needle) l
-  | VDict kvs => match needle with
-                 | VInt z => has_key (KInt z) kvs
-                 | VStr s => has_key (KStr s) kvs
-                 | _ => false
-                 end
+  | VDict kvs => match key_of needle with Some k => has_key k kvs | None => false end
   | _ => false
   end.
 
@@ -168,11 +185,11 @@ Definition vlen (v : val) : option Z :=
   end.
 
 (* isinstance against the types the harness uses *)
-Inductive ty := TInt | TStr | TBytes | TNone | TList | TDict | TRec | TObject | TTuple | TFunc | TExc (c : cls).
+Inductive ty := TInt | TBool | TFloat | TStr | TBytes | TNone | TList | TDict | TRec | TObject | TTuple | TFunc | TExc (c : cls).
 Definition isinst (v : val) (t : ty) : bool :=
   match t, v with
   | TObject, _ => true
-  | TInt, VInt _ | TStr, VStr _ | TBytes, VBytes _ | TNone, VNone | TList, VList _
+  | TInt, VInt _ | TInt, VBool _ | TBool, VBool _ | TFloat, VFloat _ | TStr, VStr _ | TBytes, VBytes _ | TNone, VNone | TList, VList _
   | TDict, VDict _ | TRec, VRec _ _ | TTuple, VExc _ _ | TFunc, VRet _ | TFunc, VRaise _ _ => true
   | TExc d, VExcI c _ => issub c d
   | _, _ => false
@@ -207,7 +224,12 @@ Definition apply_pp (p : nat) (v : val) : option val :=
   | 1 => match vlen v with Some n => Some (VInt n) | None => None end   (* len *)
   | 2 => match v with VExcI _ a => Some (VList a) | _ => None end   (* lambda e: list(e.args) *)
   | 3 => Some (VList [v])                                           (* lambda x: [x] *)
-  | 4 => match v with VInt z => Some (VInt (z + 1)) | _ => None end (* lambda x: x + 1 *)
+  | 4 => match v with                                               (* lambda x: x + 1 *)
+         | VInt z => Some (VInt (z + 1))
+         | VBool b => Some (VInt (if b then 2 else 1))
+         | VFloat h => Some (VFloat (h + 2))
+         | _ => None
+         end
   | 5 => match v with VList l => Some (VList (rev l)) | _ => None end   (* lambda l: l[::-1] *)
   | 6 => match v with VDict kvs => Some (VList (map snd kvs)) | _ => None end   (* lambda d: list(d.values()) *)
   | _ => None
